@@ -7,7 +7,7 @@ import torch
 from . import common as C
 
 PID = 'C01'
-IMPORTS = ['Base.OneHot', 'C01.Model', 'C01.Spec']
+IMPORTS = ['Base.OneHot', 'C01.Model', 'C01.Spec', 'C01.Lit']
 CASE_TYPE = 'case'
 CHECK = 'check_case'
 RULE = ('(1) small scope: alphabets 2-4, every sequence of length 1..5 (quick tier: length 1..4, at most 64 '
@@ -26,7 +26,9 @@ RULE = ('(1) small scope: alphabets 2-4, every sequence of length 1..5 (quick ti
 # thorough: the enumeration (1) is complete for A<=4, L<=5, motif length<=3, shared motif, start in
 # [-3,L+3] (substitute, insert) and (start,end) in [-2,L+2]^2 (delete); everything else is sampled.
 EXHAUSTIVE = {'quick': False, 'thorough': True}
-TRUSTED = ['randomize: the drawn replacement is obtained by replaying numpy RandomState through utils.random_one_hot']
+TRUSTED = ['compact case literals: an all-one-hot batch is written as the matrix of the indices of its 1s and '
+           'expanded by C01/Lit.v:dec inside Coq (any other batch is written in full)',
+           'randomize: the drawn replacement is obtained by replaying numpy RandomState through utils.random_one_hot']
 ASSUMPTIONS = ['torch slicing/cat/clone implement list surgery (exercised by every case)',
                'aliasing ("caller tensors unmodified") is observed by the harness, not modelled']
 LETTERS = 'ACGTXY'
@@ -65,10 +67,35 @@ def from_tensor(Y):
     return Y.permute(0, 2, 1).to(torch.int64).tolist()
 
 
+def codes_lit(A, codes):
+    """batch given as column codes -> Coq term of type batch"""
+    if all(k >= 0 for s in codes for k in s):
+        return '(dec %s %s)' % (C.nat(A), C.zmat(codes))
+    return C.batch_lit([[column(A, k) for k in s] for s in codes])
+
+
+def nested_lit(Y):
+    """batch given as nested 0/1 lists [B][L][A'] -> Coq term of type batch (compact when every
+    column is one-hot over one common width)"""
+    widths = {len(c) for s in Y for c in s}
+    if len(widths) == 1:
+        A = widths.pop()
+        codes = []
+        for s in Y:
+            row = []
+            for c in s:
+                if c.count(1) != 1 or c.count(0) != A - 1:
+                    return C.batch_lit(Y)
+                row.append(c.index(1))
+            codes.append(row)
+        if A < 5000:
+            return '(dec %s %s)' % (C.nat(A), C.zmat(codes))
+    return C.batch_lit(Y)
+
+
 def tensor_lit(A, seqs):
     L = len(seqs[0]) if seqs else 0
-    return '(T %s %s %s)' % (C.nat(A), C.nat(L),
-                             C.batch_lit([[column(A, k) for k in s] for s in seqs]))
+    return '(T %s %s %s)' % (C.nat(A), C.nat(L), codes_lit(A, seqs))
 
 
 def motif_arg(inp_m, alphabet):
@@ -155,10 +182,10 @@ def coq_case(inp, out):
         if Rs is not None:
             for R in Rs:
                 rl.append('(T %s %s %s)' % (C.nat(R.shape[1]), C.nat(R.shape[2]),
-                                            C.batch_lit(from_tensor(R))))
+                                            nested_lit(from_tensor(R))))
         call = '(CRand %s %s %s %s)' % (X, C.z(inp['s']), C.z(inp['e']), C.lst(rl))
     if out['ok'] and all(isinstance(y, list) for y in out['Y']):
-        o = '(Ok %s)' % C.lst([C.batch_lit(y) for y in out['Y']])
+        o = '(Ok %s)' % C.lst([nested_lit(y) for y in out['Y']])
     elif out['ok']:
         o = '(Ok [[[[7]]]])'   # non-integral output: certainly not the expected tensor
     else:
